@@ -348,6 +348,10 @@ class SubprocessTestCaseExecutor(TestCaseExecutor):
 
                 randomness.RNG.setstate(random_state)
 
+                with self._disable_tracing_while_unpickling():
+                    for result in results:
+                        _restore_carried_exceptions(result)
+
                 for result, reference_bindings, new_reference_bindings in zip(
                     results, context.references_bindings, new_references_bindings, strict=True
                 ):
@@ -697,11 +701,66 @@ class SubprocessTestCaseExecutor(TestCaseExecutor):
         )
 
 
+class _ExceptionCarrier(Exception):  # noqa: N818
+    """Stands in for an exception that pickle cannot rebuild in the main process.
+
+    Pickle rebuilds an exception by calling its class with ``args``, which fails, e.g.,
+    if ``__init__`` takes other parameters than it passes on to ``Exception.__init__``.
+    The carrier only holds names because the class itself might not be picklable
+    either, e.g., the classes of a mutated module are pickled by value.
+    """
+
+    def __init__(self, module: str, qualname: str, message: str) -> None:
+        super().__init__(module, qualname, message)
+        self.module = module
+        self.qualname = qualname
+        self.message = message
+
+    def rebuild(self) -> BaseException:
+        """Rebuild the carried exception without running its constructor.
+
+        Returns:
+            An exception of the carried type, or of a stand-in type with the same name
+            if that type is not available in this process
+        """
+        stand_in_type = type(
+            self.qualname.rsplit(".", maxsplit=1)[-1],
+            (Exception,),
+            {"__module__": self.module, "__qualname__": self.qualname},
+        )
+        exception_type: Any = sys.modules.get(self.module)
+        for name in self.qualname.split("."):
+            exception_type = getattr(exception_type, name, None)
+        if not (isinstance(exception_type, type) and issubclass(exception_type, BaseException)):
+            exception_type = stand_in_type
+        try:
+            exception = BaseException.__new__(exception_type)
+        except TypeError:
+            # Subclasses of builtin exceptions with an own memory layout, e.g., OSError
+            exception = BaseException.__new__(stand_in_type)
+        exception.args = (self.message,)
+        return exception
+
+
 def _filter_bad_exceptions(result: ExecutionResult, bad_exceptions: Collection[Exception]) -> None:
+    # A bad exception must keep its position, otherwise the test case would look as
+    # if all its statements had been executed.
     result.exceptions = {
-        position: exception
+        position: (
+            _ExceptionCarrier(
+                type(exception).__module__, type(exception).__qualname__, str(exception)
+            )
+            if exception in bad_exceptions
+            else exception
+        )
         for position, exception in result.exceptions.items()
-        if exception not in bad_exceptions
+    }
+
+
+def _restore_carried_exceptions(result: ExecutionResult) -> None:
+    result.exceptions = {
+        position: exception.rebuild() if isinstance(exception, _ExceptionCarrier) else exception
+        for position, exception in result.exceptions.items()
     }
 
 
